@@ -572,6 +572,70 @@ func (c *Ctx) checkTokenTables(r *Report, fn *ssa.Function, li *lexerInfo, ctc, 
 		r.Undecided("token.Init: found %d single-byte and %d two-byte token registrations", len(single), len(pairs))
 		return
 	}
+	in, chV, nxV := c.nextTokenPairSets(fn)
+	if in == nil {
+		r.Undecided("NextToken: current/next byte values not found")
+		return
+	}
+	nsite := map[string]int{}
+	eachInstr(fn, func(x ssa.Instruction) {
+		call, ok := x.(*ssa.Call)
+		if !ok || (!isCallTo(call, ctc) && !isCallTo(call, ctc2)) {
+			return
+		}
+		// only unchecked uses: the result is returned as is
+		unchecked := false
+		for _, ref := range *call.Referrers() {
+			if _, ok := ref.(*ssa.Return); ok {
+				unchecked = true
+			}
+		}
+		if !unchecked {
+			return
+		}
+		s := in[call.Block()]
+		if s == nil {
+			return
+		}
+		var bad []string
+		isPair := isCallTo(call, ctc2)
+		args := call.Common().Args
+		for a := 0; a < 256 && len(bad) < 4; a++ {
+			for b := 0; b < 256 && len(bad) < 4; b++ {
+				if !s.has(a, b) {
+					continue
+				}
+				if isPair {
+					if args[0] == chV && args[1] == nxV && !pairs[[2]int{a, b}] {
+						bad = append(bad, fmt.Sprintf("%q", string([]byte{byte(a), byte(b)})))
+					}
+				} else if args[0] == chV && !single[a] {
+					bad = append(bad, fmt.Sprintf("%q", string([]byte{byte(a)})))
+					break
+				}
+			}
+		}
+		kind := "ConstantTokenChar"
+		if isPair {
+			kind = "ConstantTokenChar2"
+		}
+		nsite[kind]++
+		r.Check(len(bad) == 0, "C16.R2", ssaFuncName(fn), fmt.Sprintf("unchecked %s lookup #%d is reached only with registered bytes", kind, nsite[kind]), c.Pos(call.Pos()),
+			"the constant-token table is indexed with unregistered bytes (e.g. "+strings.Join(bad, ", ")+") and the nil result is returned as a token")
+	})
+}
+
+func init() {
+	register("C16", &propDef{
+		explain: "Position-accounting rules on the SSA of the lexer: for every function returning a slice of the input as token text the bounds are [token start, current position] at that return; on every path of NextToken to a constant token the position advanced by exactly the token's length; unchecked token-table lookups are reached only with registered bytes/byte pairs (the path conditions are propagated as sets over all 65,536 byte pairs, byte predicates constant-folded); identifiers go through the keyword table; the end marker requires the position to be past the input. Together these are the tiling property's mechanism, decided for all inputs rather than for strings up to a length.",
+		assume:  []string{"string/comment tokens: readString's decoded text is not compared with the bytes spanned (escape decoding is C02/C14's concern); only their position accounting is implied by R1 of the slice-returning readers", "skipWhitespace consumes only whitespace bytes (isWhiteSpace constant-folded in C08)"},
+		run:     runC16,
+	})
+}
+
+// nextTokenPairSets: forward dataflow of the possible (current byte, next byte) pairs through
+// NextToken (branch conditions on the two bytes and on byte predicates are evaluated exactly).
+func (c *Ctx) nextTokenPairSets(fn *ssa.Function) (map[*ssa.BasicBlock]*pairSet, ssa.Value, ssa.Value) {
 	var chV, nxV ssa.Value
 	readChar := c.Fn("lexer", "Lexer.readChar")
 	peekChar := c.Fn("lexer", "Lexer.peekChar")
@@ -584,8 +648,7 @@ func (c *Ctx) checkTokenTables(r *Report, fn *ssa.Function, li *lexerInfo, ctc, 
 		}
 	}
 	if chV == nil || nxV == nil {
-		r.Undecided("NextToken: current/next byte values not found")
-		return
+		return nil, nil, nil
 	}
 	in := map[*ssa.BasicBlock]*pairSet{}
 	full := &pairSet{}
@@ -685,58 +748,5 @@ func (c *Ctx) checkTokenTables(r *Report, fn *ssa.Function, li *lexerInfo, ctc, 
 			}
 		}
 	}
-	nsite := map[string]int{}
-	eachInstr(fn, func(x ssa.Instruction) {
-		call, ok := x.(*ssa.Call)
-		if !ok || (!isCallTo(call, ctc) && !isCallTo(call, ctc2)) {
-			return
-		}
-		// only unchecked uses: the result is returned as is
-		unchecked := false
-		for _, ref := range *call.Referrers() {
-			if _, ok := ref.(*ssa.Return); ok {
-				unchecked = true
-			}
-		}
-		if !unchecked {
-			return
-		}
-		s := in[call.Block()]
-		if s == nil {
-			return
-		}
-		var bad []string
-		isPair := isCallTo(call, ctc2)
-		args := call.Common().Args
-		for a := 0; a < 256 && len(bad) < 4; a++ {
-			for b := 0; b < 256 && len(bad) < 4; b++ {
-				if !s.has(a, b) {
-					continue
-				}
-				if isPair {
-					if args[0] == chV && args[1] == nxV && !pairs[[2]int{a, b}] {
-						bad = append(bad, fmt.Sprintf("%q", string([]byte{byte(a), byte(b)})))
-					}
-				} else if args[0] == chV && !single[a] {
-					bad = append(bad, fmt.Sprintf("%q", string([]byte{byte(a)})))
-					break
-				}
-			}
-		}
-		kind := "ConstantTokenChar"
-		if isPair {
-			kind = "ConstantTokenChar2"
-		}
-		nsite[kind]++
-		r.Check(len(bad) == 0, "C16.R2", ssaFuncName(fn), fmt.Sprintf("unchecked %s lookup #%d is reached only with registered bytes", kind, nsite[kind]), c.Pos(call.Pos()),
-			"the constant-token table is indexed with unregistered bytes (e.g. "+strings.Join(bad, ", ")+") and the nil result is returned as a token")
-	})
-}
-
-func init() {
-	register("C16", &propDef{
-		explain: "Position-accounting rules on the SSA of the lexer: for every function returning a slice of the input as token text the bounds are [token start, current position] at that return; on every path of NextToken to a constant token the position advanced by exactly the token's length; unchecked token-table lookups are reached only with registered bytes/byte pairs (the path conditions are propagated as sets over all 65,536 byte pairs, byte predicates constant-folded); identifiers go through the keyword table; the end marker requires the position to be past the input. Together these are the tiling property's mechanism, decided for all inputs rather than for strings up to a length.",
-		assume:  []string{"string/comment tokens: readString's decoded text is not compared with the bytes spanned (escape decoding is C02/C14's concern); only their position accounting is implied by R1 of the slice-returning readers", "skipWhitespace consumes only whitespace bytes (isWhiteSpace constant-folded in C08)"},
-		run:     runC16,
-	})
+	return in, chV, nxV
 }
